@@ -144,7 +144,9 @@ def run(ctx):
     jobs = []
     for lim in limits:
         for kind in KINDS:
-            cases = [{'kind': kind, 'depth': d, 'entry': e, 'opts': ENTRIES[e] or {}} for d in depths for e in entries
+            # depths relative to the limit as well: a pass that doubles the depth overflows between limit/2 and limit
+            dl = sorted(set(depths + [int(lim * f) for f in ((0.3, 0.55, 0.8) if quick else (0.2, 0.3, 0.45, 0.55, 0.7, 0.8, 0.95, 1.05))]))
+            cases = [{'kind': kind, 'depth': d, 'entry': e, 'opts': ENTRIES[e] or {}} for d in dl for e in entries
                      if not (quick and d >= 1000 and kind in ('case', 'subqueries', 'mixed', 'list', 'opchain'))
                      and not (d >= 3000 and kind in ('case', 'mixed', 'subqueries'))]
             jobs.append((lim, cases))
@@ -169,6 +171,27 @@ def run(ctx):
                 traces.append({'id': len(traces), 'api': c['entry'], 'optvalid': True, 'outcome': 'ok', 'lexed': True, 'accexc': 0,
                                'fault': '', 'faulthit': False, 'later': '', 'exit': int(rc) if isinstance(rc, int) else 1, 'roundtrip': True})
                 meta.append({'entry': c['entry'], 'kind': c['kind'], 'depth': c['depth'], 'limit': lim, 'exit': rc})
+    # ---- the first call of a process with (almost) no stack left: creation of the lexer singleton may overflow ----
+    def first(lim, n):
+        cmd = [sys.executable, os.path.join(VERIF, 'vlib', 'deeprun.py'), 'firstcall', str(lim), str(n), REPO]
+        try:
+            p = subprocess.run(cmd, stdout=subprocess.PIPE, stderr=subprocess.PIPE, timeout=120, text=True)
+        except subprocess.TimeoutExpired:
+            return None
+        res = [json.loads(l[2:]) for l in p.stdout.splitlines() if l.startswith('@@')]
+        return res[0] if res else {'kind': 'firstcall', 'depth': n, 'entry': 'parse', 'limit': lim, 'outcome': 'ok', 'roundtrip': True,
+                                   'later': '', 'exit': p.returncode or 1}
+    flim = 150
+    with ThreadPoolExecutor(max_workers=16) as ex:
+        for x in ex.map(lambda n: first(flim, n), range(flim - (70 if quick else 140), flim - 1, 1 if not quick else 2)):
+            if x is None:
+                continue
+            nsub += 1
+            traces.append({'id': len(traces), 'api': 'parse', 'optvalid': True, 'outcome': x['outcome'], 'lexed': True, 'accexc': 0,
+                           'fault': '', 'faulthit': False, 'later': x['later'], 'exit': x.get('exit', 0), 'roundtrip': True})
+            meta.append({'entry': 'parse (first library call of the process)', 'kind': 'firstcall', 'depth': x['depth'], 'limit': flim})
+            ctx.evals()
+            ctx.nontrivial(('firstcall', x['depth']))
     ctx.cov['subprocesses'] = nsub
     for m in meta[:1] + meta[-2:]:
         ctx.sample(m)
